@@ -67,6 +67,16 @@ fn structured(other_keys: &[Vec<u8>]) -> Vec<FinalReply> {
         FinalReply::WrongSealKey,
         FinalReply::WrongStreamPosition,
         FinalReply::Reflect,
+        FinalReply::ForgedToken(0),
+        FinalReply::ForgedToken(1),
+        FinalReply::ForgedToken(2),
+        FinalReply::ForgedToken(3),
+        FinalReply::ForgedToken(4),
+        FinalReply::ForgedToken(5),
+        FinalReply::ForgedToken(15),
+        FinalReply::ForgedToken(16),
+        FinalReply::ForgedToken(17),
+        FinalReply::ForgedToken(270),
         FinalReply::Extend(1),
         FinalReply::Extend(2),
         FinalReply::Extend(1500),
@@ -437,7 +447,7 @@ impl Prop for C01 {
         json!({"idx": idx, "config": configs()[c.cfg_id], "certificate": c.cert, "final_round_reply": c.reply, "server_knows_the_password": !c.passwordless, "challenge_flags_left_out": format!("{:#x}", c.challenge_without)})
     }
     fn rule(&self) -> String {
-        "cases = (connector configuration, server certificate, reply of the server in the final CredSSP round). Configurations: 3 credential sets x password|hash x {plain, restricted admin, blank credentials}; certificates RSA-2048, EC P-256, EC P-521 (every DER length of the round then lies in 128..255) (+ an untrusted RSA key for the relay case). Replies: honest; every single-bit flip of the honest TSRequest; key+d for every d in [-256,256] except 1 and key +- 2^j for every j up to 248, correctly sealed; sealed with client-to-server keys / another session key / wrong signing key / wrong sealing key / advanced cipher stream; honest reply for another certificate's key (relay); reflection of the client's token; every truncation; extensions; the honest value re-encoded as BER-but-not-DER (long-form lengths everywhere / only on the version field, exactly one redundant leading zero octet on every length / on the outer SEQUENCE / on the OCTET STRING, indefinite-length outer SEQUENCE / [3] wrapper, constructed OCTET STRING) which CredSSP's DER rules make a malformed encoding and which must be refused; extra field, missing/empty pubKeyAuth, wrong context tag, versions 0/3/6; EOF. Full alphabet for two configurations in quick (every 13th bit / 7th truncation elsewhere), for all in thorough. Also: an Ed25519 certificate whose raw key starts with 0xFF (carry of key+1) with every offset -300..300 and +-2^j; the CHALLENGE of the earlier round leaving out SIGN / ALWAYS_SIGN / SEAL / 56 / TARGET_TYPE flags x structured replies x bit flips. Also: a server that does not know the password and takes the EncryptedRandomSessionKey field of the AUTHENTICATE message for the session key, under 8 CHALLENGE flag sets (with and without KEY_EXCH, SEAL, 128, 56, extended session security) x 4 replies sealed under those keys: all must be refused; wrong values sealed correctly in TSRequests announcing CredSSP versions 2, 3, 5, 6, 2^31-1. Also: one authentication object (Ntlm) used for two sessions through x224::Client::connect, the second server replaying the first server's final reply (4 configurations x 2 certificates); 70 sessions in a row on one thread with the real random generator, on one Ntlm object and on a fresh one each time, every server after the first replaying the first server's reply; an honest connection to certificate A followed on the same thread by a server presenting a certificate with A's issuer and serial number but another key that relays the proof for A's key (and the other way round), then an honest connection to it; three honest connections in a row for the same user and domain with the configured password, another one, and the first again (every configuration). Oracle: honest => credentials released and well formed; must-reject => connect returns Err, the server's TLS endpoint receives zero application bytes after its reply, not one raw byte (TLS alert or closure record) is written on the transport after it, and the client does not ask the (still open) transport for more bytes after the reply was delivered; don't-care (same integer, other spelling) => if accepted the value was right. Non-trivial: every reply but the honest one.".into()
+        "cases = (connector configuration, server certificate, reply of the server in the final CredSSP round). Configurations: 3 credential sets x password|hash x {plain, restricted admin, blank credentials}; certificates RSA-2048, EC P-256, EC P-521 (every DER length of the round then lies in 128..255) (+ an untrusted RSA key for the relay case). Replies: honest; every single-bit flip of the honest TSRequest; key+d for every d in [-256,256] except 1 and key +- 2^j for every j up to 248, correctly sealed; sealed with client-to-server keys / another session key / wrong signing key / wrong sealing key / advanced cipher stream; honest reply for another certificate's key (relay); reflection of the client's token; forged tokens (a signature header the server cannot have computed followed by 0..5, 15..17 or 270 arbitrary bytes); every truncation; extensions; the honest value re-encoded as BER-but-not-DER (long-form lengths everywhere / only on the version field, exactly one redundant leading zero octet on every length / on the outer SEQUENCE / on the OCTET STRING, indefinite-length outer SEQUENCE / [3] wrapper, constructed OCTET STRING) which CredSSP's DER rules make a malformed encoding and which must be refused; extra field, missing/empty pubKeyAuth, wrong context tag, versions 0/3/6; EOF. Full alphabet for two configurations in quick (every 13th bit / 7th truncation elsewhere), for all in thorough. Also: an Ed25519 certificate whose raw key starts with 0xFF (carry of key+1) with every offset -300..300 and +-2^j; the CHALLENGE of the earlier round leaving out SIGN / ALWAYS_SIGN / SEAL / 56 / TARGET_TYPE flags x structured replies x bit flips. Also: a server that does not know the password and takes the EncryptedRandomSessionKey field of the AUTHENTICATE message for the session key, under 8 CHALLENGE flag sets (with and without KEY_EXCH, SEAL, 128, 56, extended session security) x 4 replies sealed under those keys: all must be refused; wrong values sealed correctly in TSRequests announcing CredSSP versions 2, 3, 5, 6, 2^31-1. Also: one authentication object (Ntlm) used for two sessions through x224::Client::connect, the second server replaying the first server's final reply (4 configurations x 2 certificates); 70 sessions in a row on one thread with the real random generator, on one Ntlm object and on a fresh one each time, every server after the first replaying the first server's reply; an honest connection to certificate A followed on the same thread by a server presenting a certificate with A's issuer and serial number but another key that relays the proof for A's key (and the other way round), then an honest connection to it; three honest connections in a row for the same user and domain with the configured password, another one, and the first again (every configuration). Oracle: honest => credentials released and well formed; must-reject => connect returns Err, the server's TLS endpoint receives zero application bytes after its reply, not one raw byte (TLS alert or closure record) is written on the transport after it, and the client does not ask the (still open) transport for more bytes after the reply was delivered; don't-care (same integer, other spelling) => if accepted the value was right. Non-trivial: every reply but the honest one.".into()
     }
     fn assumptions(&self) -> Vec<String> {
         vec![
